@@ -1,7 +1,7 @@
 #!/bin/bash
 # dev helper: materialise every refactors/<G>/<r>.diff as a scratch tree /tmp/rf/<G>-<r> and extract its facts
 # (WF_FACTS_KEEP keeps them all cached). Remove /tmp/rf when done.
-export WF_FACTS_KEEP=100
+# cache size: .cache/keep (set it above the number of trees)
 mkdir -p /tmp/rf
 for f in /verif/refactors/*/r*.diff; do
   g=$(basename $(dirname $f)); r=$(basename $f .diff); D=/tmp/rf/$g-$r
